@@ -2,7 +2,11 @@
    [run_from_index] (the `match can_use_basic { basic | full }` expression) at
    the source's index, then the index->name conversion, then collection into
    a map keyed by source name.  Stated for the transcription, for every graph
-   state and every argument. *)
+   state and every argument.  Since the repair of F22 this includes the failure
+   case: multi_source / all_pairs return the `Err` (or reach the panic site) of the
+   FIRST listed source / node index whose per-source call does not return Ok
+   ([multi_source_first_failure], [all_pairs_iter_first_failure]) — they no longer
+   turn a per-source `Err` into a panic. *)
 From Coq Require Import String List Bool ZArith QArith Arith Lia.
 From GV Require Import Base.Outcome Base.AMap Model.GState Model.Creation Model.Query Model.Dijkstra.
 From GV Require Import Proofs.DijkstraLoopOk.
@@ -15,6 +19,48 @@ Proof.
   - inversion H. constructor.
   - apply bind_ok in H. destruct H as [y [Hy H]]. apply bind_ok in H. destruct H as [ys' [Hys H]].
     inversion H; subst. constructor; [exact Hy | apply IH; exact Hys].
+Qed.
+
+(* two outcomes (of possibly different types) are the same failure: same Error kind, same panic
+   site, or both out of fuel *)
+Definition same_failure {X Y} (o : outcome X) (o' : outcome Y) : Prop :=
+  match o, o' with
+  | Err k, Err k' => k = k'
+  | Panic s, Panic s' => s = s'
+  | OutOfFuel, OutOfFuel => True
+  | _, _ => False
+  end.
+
+Lemma same_failure_bind_l {X Y Z} (o : outcome X) (f : X -> outcome Y) (o' : outcome Z) :
+  is_ok o = false -> same_failure o o' -> same_failure (bind o f) o'.
+Proof. destruct o; cbn; auto; discriminate. Qed.
+
+(* omapM is Ok iff every item is; otherwise it is the failure of the first item that is not Ok *)
+Lemma omapM_all_ok : forall X Y (f : X -> outcome Y) l,
+  (forall x, In x l -> is_ok (f x) = true) -> exists ys, omapM f l = Ok ys.
+Proof.
+  intros X Y f. induction l as [|x l IH]; intros H; cbn [omapM]; [eauto|].
+  pose proof (H x (or_introl eq_refl)) as Hx. destruct (f x) as [y| | |]; try discriminate. cbn [bind].
+  destruct IH as [ys ->]; [intros x' Hx'; apply H; right; exact Hx'|]. cbn [bind]. eauto.
+Qed.
+
+Lemma omapM_ok_items : forall X Y (f : X -> outcome Y) l ys,
+  omapM f l = Ok ys -> forall x, In x l -> is_ok (f x) = true.
+Proof.
+  intros X Y f. induction l as [|x l IH]; intros ys H z Hz; [destruct Hz|]. cbn [omapM] in H.
+  apply bind_ok in H. destruct H as [y [Hy H]]. apply bind_ok in H. destruct H as [ys' [Hys _]].
+  destruct Hz as [<- | Hz]; [rewrite Hy; reflexivity | eapply IH; eauto].
+Qed.
+
+Lemma omapM_first_failure : forall X Y (f : X -> outcome Y) pre x post,
+  (forall z, In z pre -> is_ok (f z) = true) -> is_ok (f x) = false ->
+  same_failure (omapM f (pre ++ x :: post)) (f x).
+Proof.
+  intros X Y f. induction pre as [|z pre IH]; intros x post Hpre Hx; cbn [app omapM].
+  - destruct (f x); cbn; auto; discriminate.
+  - pose proof (Hpre z (or_introl eq_refl)) as Hz. destruct (f z) as [y| | |]; try discriminate. cbn [bind].
+    specialize (IH x post (fun z' Hz' => Hpre z' (or_intror Hz')) Hx).
+    destruct (omapM f (pre ++ x :: post)); cbn [bind]; exact IH.
 Qed.
 
 Lemma unwrap_result_ok : forall X site (o : outcome X) x, unwrap_result site o = Ok x -> o = Ok x.
@@ -56,11 +102,59 @@ Section Entry.
     apply bind_ok in H. destruct H as [tb [_ H]]. destruct (negb tb); [discriminate|].
     apply bind_ok in H. destruct H as [l [Hl H]]. inversion H; subst mm. exists l. split; [|reflexivity].
     assert (Hl' : omapM (fun source =>
-                do m <- unwrap_result "dijkstra.rs:376" (single_source teqb g weighted source target cutoff fo wp);
+                do m <- single_source teqb g weighted source target cutoff fo wp;
                 Ok (source, m)) sources = Ok l) by (destruct (parallel g threads); exact Hl).
     apply omapM_ok in Hl'. clear Hl H. induction Hl' as [|s sm srcs l' Hs _ IH]; [constructor|]. constructor; [|exact IH].
     apply bind_ok in Hs. destruct Hs as [m [Hm E]]. inversion E; subst sm. cbn.
-    split; [reflexivity | apply unwrap_result_ok in Hm; exact Hm].
+    split; [reflexivity | exact Hm].
+  Qed.
+
+  (* ... and the failure case: once the up-front name checks have passed, multi_source returns Ok
+     iff every per-source call does, and otherwise fails exactly like the FIRST listed source whose
+     call does not return Ok — the same Error kind (the per-source `Err` is propagated with `?`),
+     the same panic site *)
+  Theorem multi_source_ok_iff : forall threads (g : gstate T A) weighted sources target cutoff fo wp,
+    has_nodes teqb g sources = Ok true ->
+    match target with Some t => has_node teqb g t | None => Ok true end = Ok true ->
+    ((exists mm, multi_source teqb threads g weighted sources target cutoff fo wp = Ok mm) <->
+     (forall s, In s sources -> is_ok (single_source teqb g weighted s target cutoff fo wp) = true)).
+  Proof.
+    intros threads g weighted sources target cutoff fo wp Hb Htb. unfold multi_source. rewrite Hb, Htb. cbn [bind negb].
+    match goal with |- context [omapM ?f sources] => set (one := f) end.
+    assert (Hone : forall s, is_ok (one s) = is_ok (single_source teqb g weighted s target cutoff fo wp)).
+    { intros s. unfold one. destruct (single_source teqb g weighted s target cutoff fo wp); reflexivity. }
+    assert (Hif : (if parallel g threads then omapM one sources else omapM one sources) = omapM one sources)
+      by (destruct (parallel g threads); reflexivity).
+    rewrite Hif. split.
+    - intros [mm H] s Hs. apply bind_ok in H. destruct H as [l [Hl _]]. rewrite <- Hone. eapply omapM_ok_items; eauto.
+    - intros H. destruct (omapM_all_ok _ _ one sources) as [l ->]; [intros s Hs; rewrite Hone; auto|]. cbn [bind]. eauto.
+  Qed.
+
+  Theorem multi_source_first_failure : forall threads (g : gstate T A) weighted sources target cutoff fo wp pre s post,
+    has_nodes teqb g sources = Ok true ->
+    match target with Some t => has_node teqb g t | None => Ok true end = Ok true ->
+    sources = pre ++ s :: post ->
+    (forall x, In x pre -> is_ok (single_source teqb g weighted x target cutoff fo wp) = true) ->
+    is_ok (single_source teqb g weighted s target cutoff fo wp) = false ->
+    same_failure (multi_source teqb threads g weighted sources target cutoff fo wp)
+                 (single_source teqb g weighted s target cutoff fo wp).
+  Proof.
+    intros threads g weighted sources target cutoff fo wp pre s post Hb Htb E Hpre Hs.
+    unfold multi_source. rewrite Hb, Htb. cbn [bind negb].
+    match goal with |- context [omapM ?f sources] => set (one := f) end.
+    assert (Hone : forall x, is_ok (one x) = is_ok (single_source teqb g weighted x target cutoff fo wp)).
+    { intros x. unfold one. destruct (single_source teqb g weighted x target cutoff fo wp); reflexivity. }
+    assert (Hif : (if parallel g threads then omapM one sources else omapM one sources) = omapM one sources)
+      by (destruct (parallel g threads); reflexivity).
+    rewrite Hif. subst sources.
+    pose proof (omapM_first_failure _ _ one pre s post (fun z Hz => eq_trans (Hone z) (Hpre z Hz))
+                                    (eq_trans (Hone s) Hs)) as F.
+    assert (Hk : is_ok (omapM one (pre ++ s :: post)) = false).
+    { destruct (omapM one (pre ++ s :: post)); try reflexivity.
+      exfalso. clear - F. destruct (one s); exact F. }
+    apply same_failure_bind_l; [exact Hk|].
+    unfold one in F at 2. destruct (single_source teqb g weighted s target cutoff fo wp); try discriminate;
+      cbn [bind] in F; exact F.
   Qed.
 
   (* all_pairs = the same per-source function at every index 0..n-1, converted and collected *)
@@ -89,9 +183,41 @@ Section Entry.
       + inversion Hti. reflexivity.
     - apply omapM_ok in Hv'. clear - Hv'. induction Hv' as [|i iv is vs Hi _ IH]; [constructor|]. constructor; [|exact IH].
       apply bind_ok in Hi. destruct Hi as [r [Hr E]]. inversion E; subst iv. cbn.
-      split; [reflexivity | apply unwrap_result_ok in Hr; exact Hr].
+      split; [reflexivity | exact Hr].
     - apply omapM_ok in Hl. clear - Hl. induction Hl as [|iv sm vs ls Hi _ IH]; [constructor|]. constructor; [|exact IH].
       apply bind_ok in Hi. destruct Hi as [nm [Hn Hi]]. apply bind_ok in Hi. destruct Hi as [m [Hm E]].
       inversion E; subst sm. cbn. auto.
+  Qed.
+
+  (* the failure case of the all_pairs region: it fails exactly like the FIRST node index whose
+     per-source search does not return Ok (an `Err` is propagated, not unwrapped) *)
+  Theorem all_pairs_iter_first_failure : forall (g : gstate T A) weighted (target : option T) ti cutoff fo wp i,
+    match target with
+    | Some t => exists j, get_node_index teqb g t = Ok j /\ ti = Some j
+    | None => ti = None
+    end ->
+    (i < number_of_nodes g)%nat ->
+    (forall j, (j < i)%nat -> is_ok (run_from_index g weighted j target ti cutoff fo wp) = true) ->
+    is_ok (run_from_index g weighted i target ti cutoff fo wp) = false ->
+    same_failure (all_pairs_iter teqb g weighted target cutoff fo wp)
+                 (run_from_index g weighted i target ti cutoff fo wp).
+  Proof.
+    intros g weighted target ti cutoff fo wp i Hti Hi Hpre Hf. unfold all_pairs_iter.
+    assert (H3 : match target with
+                 | Some t => do i <- unwrap_result "dijkstra.rs:153" (get_node_index teqb g t); Ok (Some i)
+                 | None => Ok None end = Ok ti).
+    { destruct target as [t|]; [|congruence]. destruct Hti as [j [Hg ->]]. rewrite Hg. reflexivity. }
+    rewrite H3. cbn [bind].
+    match goal with |- context [omapM ?f _] => set (one := f) end.
+    assert (Hone : forall x, is_ok (one x) = is_ok (run_from_index g weighted x target ti cutoff fo wp)).
+    { intros x. unfold one. destruct (run_from_index g weighted x target ti cutoff fo wp); reflexivity. }
+    assert (Hseq : seq 0 (number_of_nodes g) = seq 0 i ++ i :: seq (S i) (number_of_nodes g - S i)).
+    { replace (number_of_nodes g) with (i + S (number_of_nodes g - S i))%nat at 1 by lia.
+      rewrite seq_app. cbn [seq Nat.add]. reflexivity. }
+    rewrite Hseq.
+    pose proof (omapM_first_failure _ _ one (seq 0 i) i (seq (S i) (number_of_nodes g - S i))) as F.
+    specialize (F (fun z Hz => eq_trans (Hone z) (Hpre z (proj2 (proj1 (in_seq _ _ _) Hz)))) (eq_trans (Hone i) Hf)).
+    unfold one in F at 2. destruct (run_from_index g weighted i target ti cutoff fo wp); try discriminate;
+      cbn [bind] in F; exact F.
   Qed.
 End Entry.
